@@ -38,7 +38,8 @@ Script == <<
   Ev("1", 18, Msg("wl_data_device", 6, "selection", FALSE, <<NilA>>)),
   Ev("1", 19, Msg("wl_callback", 5, "done", FALSE, <<IntA(5)>>)),
   Ev("2", 20, Msg("wl_display", 1, "sync", FALSE, <<New("wl_callback", 3)>>)),
-  Ev("2", 21, Msg("wl_callback", 3, "done", TRUE, <<IntA(-3)>>)) >>     \* a negative value
+  Ev("2", 21, Msg("wl_callback", 3, "done", TRUE, <<IntA(-3)>>)),       \* a negative value
+  Ev("1", 22, Msg("wl_data_offer", S1, "receive", TRUE, <<StrA("text/plain"), FdA(7)>>)) >>   \* a file descriptor: a number like any other
 
 CONSTANT QPats      \* the second pattern of the pair laws
 VARIABLES p, q, h, phase
